@@ -31,6 +31,7 @@ type sreqJ struct {
 	Trigger string      `json:"trigger,omitempty"`
 	Get     [][2]string `json:"get,omitempty"`
 	Post    [][2]string `json:"post,omitempty"`
+	Headers [][2]string `json:"headers,omitempty"`
 	NoCT    bool        `json:"no_content_type,omitempty"` // body sent without Content-Type (only ctl:forceRequestBodyVariable parses it)
 }
 
@@ -74,6 +75,9 @@ func runSeriesTx(waf *corazawaf.WAF, rq sreqJ) soutcome {
 	tx.AddRequestHeader("Host", "example.test")
 	if rq.Trigger != "" {
 		tx.AddRequestHeader("X-Trigger", rq.Trigger)
+	}
+	for _, h := range rq.Headers {
+		tx.AddRequestHeader(h[0], h[1])
 	}
 	if len(rq.Post) > 0 && !rq.NoCT {
 		tx.AddRequestHeader("Content-Type", "application/x-www-form-urlencoded")
@@ -257,11 +261,19 @@ func genSeries(r *rand.Rand) seriesJSON {
 			`SecRule ARGS_GET "@rx attack" "id:201,phase:1,pass,tag:'t1',t:none,t:lowercase,setvar:tx.score=+3,setvar:tx.p1=+1"`,
 			`SecRule REQUEST_HEADERS:x-trigger "@rx ." "id:202,phase:1,pass,setvar:tx.trig=+1"`,
 			`SecRule REQUEST_METHOD "@rx ^(P)(OS)" "id:209,phase:1,pass,capture,setvar:tx.m=%{TX.1}"`,
+			`SecRule REQUEST_COOKIES "@rx attack" "id:211,phase:1,pass,setvar:tx.ck=+1,setvar:tx.score=+1"`,
+			`SecRule REQUEST_COOKIES_NAMES "@rx ." "id:212,phase:1,pass,setvar:tx.ckn=+1"`,
+			`SecRule &REQUEST_HEADERS "@ge 0" "id:213,phase:1,pass,setvar:tx.nh=%{MATCHED_VAR}"`,
+			`SecRule &ARGS_GET "@ge 0" "id:214,phase:1,pass,setvar:tx.nget=%{MATCHED_VAR}"`,
+			`SecRule REQUEST_HEADERS_NAMES "@rx ^X-H" "id:215,phase:1,pass,setvar:tx.xh=+1"`,
 		},
 		2: {
 			`SecRule ARGS "@contains one" "id:203,phase:2,pass,t:none,t:lowercase,t:trim,severity:'3',setvar:tx.score=+2,setvar:tx.p2=+1"`,
 			`SecRule ARGS_POST "@rx ." "id:204,phase:2,pass,tag:'t1',setvar:tx.post=+1"`,
 			fmt.Sprintf(`SecRule TX:score "@ge %d" "id:205,phase:2,deny,status:403,severity:'2'"`, thr),
+			`SecRule ARGS:user "@streq attack" "id:210,phase:2,deny,status:403"`,
+			`SecRule &ARGS "@ge 0" "id:216,phase:2,pass,setvar:tx.nargs=%{MATCHED_VAR}"`,
+			`SecRule REQBODY_ERROR|INBOUND_DATA_ERROR "@eq 1" "id:217,phase:2,pass,setvar:tx.berr=+1"`,
 		},
 		3: {`SecRule REQUEST_METHOD "@rx ." "id:206,phase:3,pass,setvar:tx.p3=+1"`},
 		4: {`SecRule &ARGS "@ge 0" "id:207,phase:4,pass,setvar:tx.p4=+1"`},
@@ -269,6 +281,16 @@ func genSeries(r *rand.Rand) seriesJSON {
 	}
 	var b strings.Builder
 	b.WriteString("SecRuleEngine On\nSecRequestBodyAccess On\n")
+	// small limits: any per-collection / per-buffer state that accumulates over the transactions of
+	// one pooled object changes a verdict
+	argLimit := 0
+	if r.Intn(2) == 0 {
+		argLimit = 4 + r.Intn(7)
+		fmt.Fprintf(&b, "SecArgumentsLimit %d\n", argLimit)
+	}
+	if r.Intn(4) == 0 {
+		fmt.Fprintf(&b, "SecRequestBodyLimit %d\nSecRequestBodyInMemoryLimit %d\nSecRequestBodyLimitAction %s\n", 24+r.Intn(40), 16, []string{"Reject", "ProcessPartial"}[r.Intn(2)])
+	}
 	id := 10
 	var names []string
 	for ph := 1; ph <= 5; ph++ {
@@ -310,9 +332,30 @@ func genSeries(r *rand.Rand) seriesJSON {
 		{{{"a", "attack"}, {"A", "Attack"}, {"a", "one"}, {"d", "attack one"}}, {{"a", "attack"}, {"e", "one"}}},
 		{nil, nil},
 	}
+	// "fresh names": every request of the series uses argument / cookie / header names of its own,
+	// so distinct names accumulate over the life of the pooled object while each request stays small
+	freshNames := r.Intn(2) == 0
+	seq := 0
+	vals := []string{"attack", "one", "x", "ONE", "Attack 1"}
 	pick := func() ([][2]string, [][2]string) {
+		if freshNames {
+			seq++
+			g := [][2]string{{fmt.Sprintf("u%d", seq), vals[r.Intn(len(vals))]}, {fmt.Sprintf("v%d", seq), vals[r.Intn(len(vals))]}}
+			var p [][2]string
+			if r.Intn(2) == 0 {
+				p = [][2]string{{fmt.Sprintf("w%d", seq), vals[r.Intn(len(vals))]}}
+			}
+			return g, p
+		}
 		s := argSets[r.Intn(len(argSets))]
 		return s[0], s[1]
+	}
+	hdrs := func() [][2]string {
+		if r.Intn(3) == 0 {
+			return nil
+		}
+		seq++
+		return [][2]string{{"Cookie", fmt.Sprintf("c%d=attack; d%d=one", seq, seq)}, {fmt.Sprintf("X-H%d", seq), "one"}}
 	}
 	sj := seriesJSON{Kind: "series", Directives: b.String(), Triggers: names}
 	// triggering requests alternate with requests that trigger nothing
@@ -324,13 +367,21 @@ func genSeries(r *rand.Rand) seriesJSON {
 			val = "capture"
 		}
 		g, p := pick()
-		sj.Requests = append(sj.Requests, sreqJ{Trigger: val, Get: g, Post: p, NoCT: len(p) > 0 && r.Intn(3) == 0})
+		sj.Requests = append(sj.Requests, sreqJ{Trigger: val, Get: g, Post: p, Headers: hdrs(), NoCT: len(p) > 0 && r.Intn(3) == 0})
 		g, p = pick()
-		plain := sreqJ{Get: g, Post: p, NoCT: len(p) > 0 && r.Intn(3) == 0}
+		plain := sreqJ{Get: g, Post: p, Headers: hdrs(), NoCT: len(p) > 0 && r.Intn(3) == 0}
 		if r.Intn(4) == 0 {
 			plain.Trigger = "nothing" // a header value no rule reacts to
 		}
 		sj.Requests = append(sj.Requests, plain)
+	}
+	// the last request of a cycle: its verdict depends on its arguments being visible
+	sj.Requests = append(sj.Requests, sreqJ{Get: [][2]string{{"user", "attack"}}})
+	if argLimit > 0 {
+		sj.Triggers = append(sj.Triggers, "argslimit")
+	}
+	if freshNames {
+		sj.Triggers = append(sj.Triggers, "freshnames")
 	}
 	return sj
 }
